@@ -566,7 +566,7 @@ class Check(PropertyCheck):
                 w.recv("client", b"\x05\x01\x00")
                 w.recv("client", b"\x05\x01\x00\x03" + bytes([len(hostb)]) + hostb + addr[1].to_bytes(2, "big"))
             connected = bool(w.server_labels())
-            if connected != (case["strategy"] == "eager"):
+            if connected != (case["strategy"] == "eager" and not udp):     # DestinationKnown.finish_start connects eagerly for tcp only
                 return {"__setup__": "unexpected connection state after the preamble", "labels": w.server_labels()}
             defer["on"] = True
             pos = len(w.trace)
@@ -577,7 +577,7 @@ class Check(PropertyCheck):
                 for t in w.trace[pos:]:
                     if t[0] == "send": toks.append(("S:" if t[1].startswith("server") else "C:") + hx(t[2]))
                     elif t[0] == "open": toks.append("open")
-                    elif t[0] == "close" and mode != "regular":   # inside a CONNECT tunnel HttpStream turns every close into a full close of both sides
+                    elif t[0] == "close":
                         toks.append("x" + ("S" if t[1].startswith("server") else "C") + ("h" if t[2] else "f"))
                     elif t[0] == "hook" and t[1] in HOOKNUM: toks.append(HOOKNUM[t[1]])
                 pos = len(w.trace)
@@ -590,16 +590,17 @@ class Check(PropertyCheck):
                 if w.recv("client", unhx(seg)):
                     events.append("c:" + seg); snap()
             for st in case["script"]:
-                if decisions and decisions[0][-1].split("-")[0] not in ("tcp", "udp"):
+                if decisions and decisions[0] not in (["tcp-ignore"], ["udp-ignore"], ["tcp"], ["udp"]):
                     break      # intercepted: the rest is another property's subject
                 if st[0] == "c":
                     if w.recv("client", unhx(st[1])): events.append("c:" + st[1]); snap()
                 elif st[0] == "s":
                     if srv() and w.recv(srv(), unhx(st[1])): events.append("s:" + st[1]); snap()
-                elif st[0] == "xc":
-                    if w.peer_close("client"): events.append("xc"); snap()
-                elif st[0] == "xs":
-                    if srv() and w.peer_close(srv()): events.append("xs"); snap()
+                elif st[0] in ("xc", "xs"):
+                    # inside a CONNECT tunnel HttpStream turns the relay's half-close into a full close of both sides (C29's
+                    # subject, not the relay layer's): close events are not driven in regular mode
+                    if mode != "regular" and (w.peer_close("client") if st[0] == "xc" else (srv() and w.peer_close(srv()))):
+                        events.append(st[0]); snap()
                 elif st[0] in ("ok", "err"):
                     if w.deferred_connects:
                         cmd = w.deferred_connects[0]
@@ -627,13 +628,19 @@ class Check(PropertyCheck):
             ctx.server.address = ("192.0.2.9", 443)
             seen = []
 
+            forced = []
+
             def on_hook(w, h):
+                if isinstance(h, layer.NextLayerHook) and not forced:
+                    # the stack NextLayer._next_layer instantiates for TLS (3a); forced so that the ClientTLSLayer sees every segmentation
+                    st = tls_layers.ServerTLSLayer(h.data.context)
+                    st.child_layer = tls_layers.ClientTLSLayer(h.data.context)
+                    h.data.layer = st; forced.append(1)
+                    return
                 tctx.master.addons.trigger(h)
                 if isinstance(h, TlsClienthelloHook):
                     h.data.ignore_connection = True
                     seen.append("tls_clienthello")
-                if isinstance(h, layer.NextLayerHook) and h.data.layer is not None and not seen:
-                    seen.append(",".join(stack_of(h.data.layer)))
             w = World(modes.TransparentProxy(ctx), ctx, on_hook=on_hook)
             w.start()
             chunks = []
@@ -718,13 +725,14 @@ class Check(PropertyCheck):
     def oracle_e2e(self, case, obs):
         fails = []
         cfg = case["cfg"]
-        if obs["errors"] and (obs["stack"] is None or obs["stack"][-1].split("-")[0] in ("tcp", "udp")):
+        if obs["errors"] and (obs["stack"] is None or obs["stack"] in (["tcp-ignore"], ["udp-ignore"], ["tcp"], ["udp"])):
             return [f"layer raised: {obs['errors'][:1]}"]      # (after interception the missing TLS addon makes the TLS layers fail)
         flight = [unhx(x) for x in case["flight"]]
         whole = b"".join(flight)
         c = dict(cfg)
-        c["peer"] = cfg["peer"] if case["strategy"] == "eager" else None
-        if case["strategy"] == "eager" and not cfg.get("peer"): c["peer"] = cfg["addr"]   # world: peername defaults to the address
+        eager = case["strategy"] == "eager" and cfg["tcp"]
+        c["peer"] = cfg["peer"] if eager else None
+        if eager and not cfg.get("peer"): c["peer"] = cfg["addr"]   # world: peername defaults to the address
         exp = self.expect({"cfg": c, "intent": case["intent"]}, whole)
         stack = obs["stack"]
         is_relay = stack in (["tcp-ignore"], ["udp-ignore"]) or (cfg.get("show") and stack in (["tcp"], ["udp"]) and exp == 1)
@@ -805,7 +813,7 @@ class Check(PropertyCheck):
             if "__setup__" in obs: return None
             cfg = dict(case["cfg"])
             cfg["top"] = "rev-" + case["scheme"] if case["mode"] == "reverse" else "other"
-            if case["strategy"] == "eager":
+            if case["strategy"] == "eager" and cfg["tcp"]:
                 cfg["peer"] = cfg.get("peer") or cfg["addr"]
             else:
                 cfg["peer"] = None     # set when the connection is opened, after the decision
@@ -828,7 +836,7 @@ class Check(PropertyCheck):
             stack = toks[-1]; steps = toks[:-2]
             if stack not in ("tcp-ignore", "udp-ignore", "tcp", "udp", "."):
                 return {"stack": stack}
-            return {"stack": stack, "steps": [[t for t in self.norm_step(s) if not (case["mode"] == "regular" and t.startswith("x"))] for s in steps]}
+            return {"stack": stack, "steps": [self.norm_step(s) for s in steps]}
         if k == "tlsig":
             st, _, l = replies[0].partition(" ")
             return [st, l]
